@@ -117,32 +117,69 @@ def r1(F, R):
 
 
 def r2(F, R):
+    """TagOperation::eval's operator table, on its deep path table (deep.py; the recursive calls stay opaque):
+    And -> l.eval(tags) & r.eval(tags), Or -> |, Not -> !inner.eval(tags), Tag -> some tag equals the name."""
+    from . import deep as D
     evs = [b for b in F.crate_bodies() if (b.impl or {}).get("trait") == "tag::Ext" and (b.impl or {}).get("self_adt") == "gherkin::tagexpr::TagOperation"]
     if len(evs) != 1:
         raise Unverifiable("TagOperation::eval impl")
     b = evs[0]
-    table = {}
-    for p in A.enumerate_paths(b):
-        var = [o for a, o in p.decisions if "TagOperation" in a]
-        rec = [t for s, t in p.calls() if (op_fn(t["func"]) or {}).get("trait") == "tag::Ext"]
-        bins = [st["rv"]["op"] for s, k, st in p.effects if k == "assign" and st["rv"]["k"] == "bin"]
-        uns = [st["rv"]["op"] for s, k, st in p.effects if k == "assign" and st["rv"]["k"] == "un"]
-        anys = [t for s, t in p.calls(r"Iterator::any$")]
-        clones = [t for s, t in p.calls(r"Clone::clone$")]
-        table[var[0] if var else "?"] = (len(rec), bins, uns, len(anys), len(clones))
-    want = {"And": (2, ["BitAnd"], [], 0), "Or": (2, ["BitOr"], [], 0), "Not": (1, [], ["Not"], 0), "Tag": (0, [], [], 1)}
-    for v, w in want.items():
-        got = table.get(v)
-        R.check(got is not None and got[:4] == w, f"eval/{v}", b, f"{v}: {w}", f"TagOperation::{v} is evaluated as (recursive calls, binops, unops, any) = {got}")
-    # both operands on the same tags: the second recursive call gets `tags`, the first a clone of it
-    for v in ("And", "Or"):
-        got = table.get(v)
-        R.check(got is not None and got[4] >= 1, f"eval/{v}-same-tags", b, "l.eval(tags.clone()) op r.eval(tags)", f"{v}: operands are not evaluated over the same tags")
-    # Tag: equality with the tag text
-    kb = [nb for nb in F.nested(b) if nb is not b]
-    eqs = [t for nb in kb for _, t in nb.calls(lambda t: callee_is(t, r"PartialEq.*::eq$"))]
-    R.check(len(eqs) == 1, "eval/Tag-equality", b, "tag.as_ref() == t", f"{len(eqs)} comparisons in the Tag arm")
-    R.check(len(table) == 4, "eval/arms", b, "", f"{len(table)} arms")
+    dp = D.Deep(F, b, max_paths=400)
+    rows = dp.run()
+    me = ("deref", ("arg", 1))
+    tags_t = ("arg", 2)
+    by = {}
+    for p in rows:
+        v = [o for a, o in p.conds if a == ("discr", me)]
+        by.setdefault(v[0] if v else "?", []).append(p)
+    is_rec = lambda x: isinstance(x, tuple) and x and x[0] == "call" and re.search(r"tag::Ext>?::eval$", x[1])
+
+    def rec_ok(x, var, idx):
+        """x = eval(<operand idx of self as var>, tags)"""
+        return is_rec(x) and len(x[2]) == 2 and D.mentions(x[2][0], lambda y: y == ("field", ("as", me, var), idx)) and x[2][1] == tags_t
+    for var, op in (("And", "BitAnd"), ("Or", "BitOr")):
+        ps = by.get(var, [])
+        ok = len(ps) == 1 and not ps[0].cut and ps[0].ret[0] == "bin" and ps[0].ret[1] == op and \
+            {0, 1} == {i for i in (0, 1) for x in (ps[0].ret[2], ps[0].ret[3]) if rec_ok(x, var, i)} and is_rec(ps[0].ret[2]) and is_rec(ps[0].ret[3])
+        R.check(ok, f"eval/{var}", b, f"{var}: l.eval(tags) {op} r.eval(tags)", f"TagOperation::{var} is evaluated as {D.fmt(b, ps[0].ret)[:120] if ps else 'nothing'}")
+        R.check(ok, f"eval/{var}-same-tags", b, "both operands over the same tags", f"{var}: operands are not evaluated over the same tags")
+    ps = by.get("Not", [])
+    okn = len(ps) == 1 and not ps[0].cut and ps[0].ret[0] == "un" and ps[0].ret[1] == "Not" and rec_ok(ps[0].ret[2], "Not", 0)
+    R.check(okn, "eval/Not", b, "Not: !inner.eval(tags)", f"TagOperation::Not is evaluated as {D.fmt(b, ps[0].ret)[:120] if ps else 'nothing'}")
+    # Tag: true iff some tag equals the name
+    ps = by.get("Tag", [])
+    name_t = ("field", ("as", me, "Tag"), 0)
+    is_eq = lambda x: isinstance(x, tuple) and x and x[0] == "call" and re.search(r"::eq$", x[1])
+    okt, n_eq, why = bool(ps), 0, ""
+    if len(ps) == 1 and not ps[0].cut and ps[0].ret[0] == "call" and re.search(r"Iterator::any$", ps[0].ret[1]):
+        # `tags.into_iter().any(|t| t.as_ref() == name)`: the closure's table
+        clo = [x for x in ps[0].ret[2] if isinstance(x, tuple) and x and x[0] == "closure"]
+        okt = D.mentions(ps[0].ret[2][0], lambda y: y == tags_t) and len(clo) == 1
+        if okt:
+            kb = F.body(clo[0][1], b.crate)
+            krows = D.Deep(F, kb, max_paths=50).run() if kb is not None else []
+            okt = len(krows) == 1 and is_eq(krows[0].ret) and D.mentions(krows[0].ret, lambda y: y == ("arg", 2) or y == ("L", 0, 2)) and \
+                D.mentions(krows[0].ret, lambda y: y[0] == "field" and y[1] in (("arg", 1), ("deref", ("arg", 1))))
+            n_eq = 1 if okt else 0
+            why = "" if okt else "the predicate of `any` is not an equality with the tag"
+    else:
+        # explicit loop: true only after an equality held, false only when the tags are exhausted, else go on
+        for p in ps:
+            eqs = [(a, o) for a, o in p.conds if is_eq(a) and D.mentions(a, lambda y: y == name_t or y == ("refto", name_t))]
+            nxt = [o for a, o in p.conds if a[0] == "discr" and a[1][0] == "call" and re.search(r"Iterator::next$", a[1][1])]
+            if p.cut:
+                okt = okt and bool(eqs) and eqs[-1][1] is False
+            elif p.ret == ("const", True):
+                n_eq += 1
+                okt = okt and bool(eqs) and eqs[-1][1] is True
+            elif p.ret == ("const", False):
+                okt = okt and nxt[-1:] == ["None"]
+            else:
+                okt = False
+        why = "" if okt else "the loop does not return true exactly when a tag equals the name"
+    R.check(okt, "eval/Tag", b, "Tag: any tag == name", f"TagOperation::Tag is not `some tag equals the name` ({why})")
+    R.check(n_eq >= 1, "eval/Tag-equality", b, "tag.as_ref() == t", f"{n_eq} equality comparisons decide the Tag arm")
+    R.check(set(by) == {"And", "Or", "Not", "Tag"}, "eval/arms", b, "", f"arms: {sorted(by)}")
     R.floor(8)
 
 
